@@ -80,6 +80,98 @@ Proof.
   - inversion Hf; subst. constructor.
 Qed.
 
+(* ---- session_down_to_bmp: the reason code table and a readable Peer Down *)
+
+Theorem C19_session_down_reason : forall r h,
+  wf_pph h ->
+  (forall b, r = Some (SDRemoteNotification b) \/ r = Some (SDLocalNotification b) ->
+             frame_ok BGP_NOTIFICATION b) ->
+  wf_msg (PeerDown h (session_down_to_bmp r))
+  /\ reason_code (session_down_to_bmp r) =
+     match r with
+     | None | Some SDIoError => 4
+     | Some (SDLocalNotification _) => 1
+     | Some (SDRemoteNotification _) => 3
+     | Some SDHoldTimerExpired | Some SDFsmError | Some SDAdminShutdown => 2
+     end.
+Proof.
+  intros r h Hh Hb. split.
+  - cbn [wf_msg]. split; [exact Hh|].
+    destruct r as [[| b | b | | | ]|]; cbn [session_down_to_bmp]; try exact I; try (cbv; reflexivity).
+    + apply Hb. left. reflexivity.
+    + apply Hb. right. reflexivity.
+  - destruct r as [[| b | b | | | ]|]; reflexivity.
+Qed.
+
+(* ---- loc_rib_peer_up: a readable Peer Up of the RFC 9069 virtual peer whose OPEN states
+   the local AS in the 4-octet capability *)
+
+Theorem C19_loc_rib_peer_up_wf : forall rid asn blob,
+  asn < 2 ^ 32 -> length rid = 4%nat -> frame_ok BGP_OPEN blob ->
+  wf_msg (loc_rib_peer_up rid asn blob)
+  /\ (exists h, loc_rib_peer_up rid asn blob = PeerUp h (IP4 [0;0;0;0]) 0 0 blob blob
+                /\ p_type h = 3 /\ flags_no_v h /\ p_addr h = IP4 [0;0;0;0] /\ p_asn h = asn /\ p_id h = rid)
+  /\ In (VL [VN 65; VN asn]) (o_caps (loc_rib_open rid asn))
+  /\ o_asn (loc_rib_open rid asn) = asn /\ o_rid (loc_rib_open rid asn) = be_dec rid.
+Proof.
+  intros rid asn blob Hasn Hrid Hb. split; [|split; [|split; [|split]]].
+  - cbn. repeat split; try assumption; try (cbv; reflexivity).
+  - eexists. split; [reflexivity|]. cbn. repeat split; reflexivity.
+  - left. reflexivity.
+  - reflexivity.
+  - reflexivity.
+Qed.
+
+Theorem C19_adj_rib_out_update_faithful : forall family nlri attrs nexthop,
+  adj_rib_out_to_update family nlri attrs nexthop =
+  match attrs with
+  | Some a => UReach family [nlri] nexthop a
+  | None => UUnreach family [nlri]
+  end.
+Proof. reflexivity. Qed.
+
+(* ---- the codec configuration for one monitored update *)
+
+(* Whatever the BGP encoder does: no panic; the RFC 8950 form is requested exactly for an
+   IPv4-unicast announcement with an IPv6 next hop; the extended limit is used only when the
+   4096-octet attempt failed; an error only when both failed. *)
+Theorem C19_embed_total : forall enc ap u,
+  embed enc ap u <> EncoderPanic
+  /\ (forall b, embed enc ap u = Embedded b ->
+        enc (needs_rfc8950 u) false ap u = Some b
+        \/ (enc (needs_rfc8950 u) false ap u = None /\ enc (needs_rfc8950 u) true ap u = Some b))
+  /\ (embed enc ap u = EncodeError ->
+        enc (needs_rfc8950 u) false ap u = None /\ enc (needs_rfc8950 u) true ap u = None).
+Proof.
+  intros enc ap u. unfold embed.
+  destruct (enc (needs_rfc8950 u) false ap u) as [b0|] eqn:E0.
+  - split; [discriminate|]. split; [intros b H; inversion H; subst; left; reflexivity|discriminate].
+  - destruct (enc (needs_rfc8950 u) true ap u) as [b1|] eqn:E1.
+    + split; [discriminate|]. split; [intros b H; inversion H; subst; right; split; reflexivity|discriminate].
+    + split; [discriminate|]. split; [discriminate|intros _; split; reflexivity].
+Qed.
+
+Theorem C19_needs_rfc8950_iff : forall u,
+  needs_rfc8950 u = true <->
+  exists es nh a, u = UReach 65537 es nh a /\ nh_is_v6 nh = true.
+Proof.
+  intro u. split.
+  - destruct u as [f es nh a|f es|f]; cbn [needs_rfc8950]; try discriminate.
+    intro H. apply andb_true_iff in H. destruct H as [Hf Hn]. apply N.eqb_eq in Hf. subst f.
+    exists es, nh, a. split; [reflexivity|exact Hn].
+  - intros (es & nh & a & -> & Hn). cbn [needs_rfc8950]. rewrite Hn. reflexivity.
+Qed.
+
+(* the record of the old behaviour (findings C19-3 and C19-4): for an encoder that has no
+   classic form for an IPv4 route with an IPv6 next hop, resp. no room within 4096 octets,
+   the old configuration loses the route's form / panics where the new one embeds it *)
+Lemma C19_embed_before_fix_refuted :
+  exists enc u b, embed_before_fix enc false u = EncoderPanic /\ embed enc false u = Embedded b.
+Proof.
+  exists (fun (_ ext_len _ : bool) (_ : update) => if ext_len then Some [1] else None), (UEor 65537), [1].
+  split; reflexivity.
+Qed.
+
 (* ---- dump_table: the peer index *)
 
 Lemma ip_eqb_eq : forall a b, ip_eqb a b = true <-> a = b.
